@@ -1,2 +1,314 @@
-"""Non-Kani side checks (z3 encodings, MIR guards), keyed by property id."""
-CHECKS = {}
+"""Non-Kani side checks (z3 encodings, MIR guards), keyed by property id.
+
+Each check is a function (prop, tier, known_findings) -> dict with keys
+  evidence, inconclusive[], known[], violations[] (replay dirs), samples[], obligations, discharged, solver_s
+"""
+import hashlib, json, os, re, shutil, subprocess, time
+
+ROOT = os.path.dirname(os.path.dirname(os.path.abspath(__file__)))
+REPO = "/repo"
+CACHE = os.path.join(ROOT, ".cache")
+REPLAYS = os.path.join(ROOT, "replays")
+
+
+# ------------------------------------------------------------------------------------------------
+# C14 TYPE: auto-trait entailment. For every `unsafe impl Send/Sync for S<..>` of the crate:
+#   declared(bounds of the impl, closed under the supertraits of the crate's traits)  ==>  required(fields of S)
+# is a propositional formula over atoms Send(P), Sync(P) for the type parameters P. z3 decides
+# declared AND NOT required; `sat` = a concrete assignment (e.g. Send(Iter)=false) = a client type the unsafe
+# impl wrongly admits. The assignment is replayed by compiling a generated probe program.
+
+ATOMIC_FREE = ("AtomicCounter", "AtomicBool", "AtomicUsize", "usize", "Option<usize>", "bool")
+
+
+def strip_comments(src):
+    src = re.sub(r"//[^\n]*", "", src)
+    return re.sub(r"/\*.*?\*/", "", src, flags=re.S)
+
+
+def split_top(s, sep=","):
+    out, depth, cur = [], 0, ""
+    for ch in s:
+        if ch in "<([{":
+            depth += 1
+        elif ch in ">)]}":
+            depth -= 1
+        if ch == sep and depth == 0:
+            out.append(cur)
+            cur = ""
+        else:
+            cur += ch
+    if cur.strip():
+        out.append(cur)
+    return [x.strip() for x in out if x.strip()]
+
+
+def parse_generics(g):
+    """'<'a, const N: usize, T: Send + Sync, A>' -> ({param: [bounds]}, [type params in order])"""
+    params, order = {}, []
+    for item in split_top(g):
+        if item.startswith("'"):
+            continue
+        if item.startswith("const "):
+            continue
+        name, _, b = item.partition(":")
+        name = name.strip()
+        order.append(name)
+        params[name] = [x.strip() for x in split_top(b, "+")] if b.strip() else []
+    return params, order
+
+
+def parse_where(w):
+    out = {}
+    for item in split_top(w):
+        lhs, _, b = item.partition(":")
+        lhs = lhs.strip()
+        if re.fullmatch(r"\w+", lhs):
+            out.setdefault(lhs, []).extend(x.strip() for x in split_top(b, "+"))
+    return out
+
+
+def load_crate():
+    files = []
+    for d, _, fs in os.walk(os.path.join(REPO, "src")):
+        for f in fs:
+            if f.endswith(".rs") and "tests" not in d.split(os.sep) and f != "verif_shim.rs":
+                files.append(os.path.join(d, f))
+    return {f: strip_comments(open(f).read()) for f in sorted(files)}
+
+
+def extract(srcs):
+    structs, impls, traits = {}, [], {}
+    for f, s in srcs.items():
+        for m in re.finditer(r"pub struct (\w+)\s*(<[^{;]*?>)?\s*(where[^{]*)?\{(.*?)\n\}", s, re.S):
+            name, gen, where, body = m.group(1), m.group(2) or "<>", m.group(3) or "", m.group(4)
+            params, order = parse_generics(gen[1:-1])
+            for k, v in parse_where(where[5:] if where else "").items():
+                params.setdefault(k, []).extend(v)
+            fields = []
+            for fl in split_top(body):
+                fl = re.sub(r"^\s*pub(\([^)]*\))?\s+", "", fl.strip())
+                if ":" in fl:
+                    fn, _, ft = fl.partition(":")
+                    fields.append((fn.strip(), re.sub(r"\s+", "", ft)))
+            structs[name] = {"file": f, "params": params, "order": order, "fields": fields}
+        for m in re.finditer(r"unsafe impl\s*(<[^{]*?>)?\s*(Send|Sync) for (\w+)\s*(<[^{]*?>)?\s*(where[^{]*)?\{", s, re.S):
+            gen, tr, name, args, where = m.group(1) or "<>", m.group(2), m.group(3), m.group(4) or "<>", m.group(5) or ""
+            params, order = parse_generics(gen[1:-1])
+            for k, v in parse_where(where[5:] if where else "").items():
+                params.setdefault(k, []).extend(v)
+            targs = [a for a in split_top(args[1:-1]) if not a.startswith("'") and not (re.fullmatch(r"\w+", a) and a not in params)]
+            impls.append({"file": f, "trait": tr, "struct": name, "params": params, "args": targs,
+                          "line": s[:m.start()].count("\n") + 1})
+        for m in re.finditer(r"pub trait (\w+)\s*(<[^{]*?>)?\s*:\s*([^{]*?)\{", s, re.S):
+            sup = [x.strip() for x in split_top(m.group(3).split("where")[0], "+")]
+            traits[m.group(1)] = sup
+    return structs, impls, traits
+
+
+def base_trait(b):
+    return re.match(r"[\w:]+", b).group(0).split("::")[-1] if re.match(r"[\w:]+", b) else b
+
+
+def declared_atoms(params, traits):
+    """-> set of (auto, param) implied by the bounds, closing over the crate's trait supertraits."""
+    out = set()
+    for p, bounds in params.items():
+        todo = [base_trait(b) for b in bounds]
+        seen = set()
+        while todo:
+            b = todo.pop()
+            if b in seen:
+                continue
+            seen.add(b)
+            if b in ("Send", "Sync"):
+                out.add((b, p))
+            elif b == "Copy":
+                pass
+            todo += [base_trait(x) for x in traits.get(b, [])]
+    return out
+
+
+def required(ftype, auto, tparams):
+    """Structural rules -> list of (auto, param) atoms required for `auto` of a field of type ftype,
+    or None if the shape is not understood."""
+    t = ftype
+    if t in ATOMIC_FREE or t.startswith("PhantomData<"):
+        return []
+    m = re.fullmatch(r"&'\w+\[(\w+)\]", t) or re.fullmatch(r"&'\w+(\w+)", t)
+    if m:  # shared reference: both Send and Sync of the reference need Sync of the referent
+        return [("Sync", m.group(1))] if m.group(1) in tparams else []
+    m = re.fullmatch(r"UnsafeCell<(?:ManuallyDrop<)?(?:Vec<(\w+)>|\[(\w+);\w+\]|(\w+))>?>", t)
+    if m:
+        # interior mutability reached through &self from several threads: the content is handed from
+        # thread to thread (moved out / mutated by whichever thread holds the reservation) -> Send for both
+        p = m.group(1) or m.group(2) or m.group(3)
+        return [("Send", p)] if p in tparams else []
+    m = re.fullmatch(r"Range<(\w+)>", t)
+    if m:
+        return [(auto, m.group(1))] if m.group(1) in tparams else []
+    if t in tparams:
+        return [(auto, t)]
+    return None
+
+
+def smt_entailment(decl, req, params):
+    """z3: is there an assignment with all `decl` atoms true and some `req` atom false?"""
+    atoms = sorted({f"{a}_{p}" for a, p in decl | set(req)} | {f"{a}_{p}" for p in params for a in ("Send", "Sync")})
+    lines = ["(set-logic ALL)"] + [f"(declare-const {a} Bool)" for a in atoms]
+    for a, p in sorted(decl):
+        lines.append(f"(assert {a}_{p})")
+    if req:
+        lines.append("(assert (not (and " + " ".join(f"{a}_{p}" for a, p in req) + " true)))")
+    else:
+        lines.append("(assert false)")
+    script = "\n".join(lines + ["(check-sat)"]) + "\n"
+    t0 = time.time()
+    res = {}
+    for solver in (["/usr/bin/z3", "-in"], ["cvc5", "--lang", "smt2"]):
+        try:
+            r = subprocess.run(solver, input=script, capture_output=True, text=True, timeout=60)
+            out = r.stdout + r.stderr
+        except Exception as e:  # noqa
+            out = f"(error {e})"
+        res[solver[0]] = out
+    verdicts = {k: (v.strip().splitlines() or ["?"])[0] for k, v in res.items()}
+    err = any("(error" in v or "rror" in v for v in res.values()) or len(set(verdicts.values())) != 1
+    z = ""
+    if verdicts["/usr/bin/z3"] == "sat":
+        z = subprocess.run(["/usr/bin/z3", "-in"], input=script + "(get-model)\n", capture_output=True, text=True, timeout=60).stdout
+    dt = time.time() - t0
+    model = {}
+    if verdicts["/usr/bin/z3"] == "sat":
+        for m in re.finditer(r"\(define-fun (\w+) \(\) Bool\s+(true|false)\)", z):
+            model[m.group(1)] = m.group(2) == "true"
+    return verdicts["/usr/bin/z3"], model, err, dt, script
+
+
+PROBE_ITER = '''// generated by /verif/driver/extra.py: a client program that the crate must REJECT if its unsafe Send/Sync
+// impls are sound: it shares a concurrent iterator over a wrapped iterator that is not Send (captures an Rc).
+use orx_concurrent_iter::*;
+use std::rc::Rc;
+fn main() {
+    let shared = Rc::new(7usize);
+    let not_send_iter = (0..4usize).map(move |x| x + *shared);
+    let con_iter = not_send_iter.into_con_iter();
+    std::thread::scope(|s| {
+        s.spawn(|| { let _ = con_iter.next(); });
+        s.spawn(|| { let _ = con_iter.next(); });
+    });
+}
+'''
+TWIN_ITER = '''// thread-safe twin: must compile
+use orx_concurrent_iter::*;
+use std::sync::Arc;
+fn main() {
+    let shared = Arc::new(7usize);
+    let iter = (0..4usize).map(move |x| x + *shared);
+    let con_iter = iter.into_con_iter();
+    std::thread::scope(|s| {
+        s.spawn(|| { let _ = con_iter.next(); });
+        s.spawn(|| { let _ = con_iter.next(); });
+    });
+}
+'''
+
+
+def compile_probe(name, code):
+    d = os.path.join(CACHE, "c14-probe")
+    os.makedirs(os.path.join(d, "src", "bin"), exist_ok=True)
+    open(os.path.join(d, "Cargo.toml"), "w").write(
+        '[package]\nname = "c14-probe"\nversion = "0.0.0"\nedition = "2021"\n[dependencies]\n'
+        'orx-concurrent-iter = { path = "/repo" }\n[workspace]\n')
+    shutil.copy(os.path.join(REPO, "Cargo.lock"), os.path.join(d, "Cargo.lock"))
+    for f in os.listdir(os.path.join(d, "src", "bin")):
+        os.remove(os.path.join(d, "src", "bin", f))
+    open(os.path.join(d, "src", "bin", name + ".rs"), "w").write(code)
+    env = dict(os.environ)
+    env["CARGO_NET_OFFLINE"] = "true"
+    env.pop("RUSTFLAGS", None)
+    r = subprocess.run(["cargo", "check", "--offline", "--bin", name], cwd=d, env=env, capture_output=True, text=True)
+    return r.returncode == 0, (r.stderr or "")[-1500:]
+
+
+def c14_type(prop, tier, kf):
+    t0 = time.time()
+    srcs = load_crate()
+    structs, impls, traits = extract(srcs)
+    ev = {"check": "TYPE: auto-trait entailment of every unsafe Send/Sync impl (z3, cross-checked with cvc5)",
+          "structs_parsed": sorted(structs), "unsafe_impls": [], "traits_with_supertraits": traits}
+    res = {"evidence": ev, "inconclusive": [], "known": [], "violations": [], "samples": [], "obligations": 0,
+           "discharged": 0, "solver_s": 0.0}
+    if not impls:
+        res["inconclusive"].append("C14/TYPE: no unsafe impl Send/Sync found in /repo/src (parser out of date?)")
+    for im in impls:
+        st = structs.get(im["struct"])
+        tag = f"{im['trait']} for {im['struct']} ({os.path.relpath(im['file'], REPO)}:{im['line']})"
+        if st is None:
+            res["inconclusive"].append(f"C14/TYPE: struct {im['struct']} not found for unsafe impl {tag}")
+            continue
+        # map struct params to impl args (positional)
+        ren = dict(zip(st["order"], im["args"]))
+        tparams = set(im["params"])
+        req, unknown = [], []
+        for fname, ftype in st["fields"]:
+            ft = ftype
+            for a, b in ren.items():
+                ft = re.sub(rf"\b{a}\b", b, ft)
+            r = required(ft, im["trait"], tparams)
+            if r is None:
+                unknown.append(f"{fname}: {ftype}")
+            else:
+                req += r
+        if unknown:
+            res["inconclusive"].append(f"C14/TYPE: field shapes not covered by the rules in {tag}: {unknown}")
+            continue
+        decl = declared_atoms(im["params"], traits)
+        verdict, model, err, dt, script = smt_entailment(decl, req, tparams)
+        res["solver_s"] += dt
+        res["obligations"] += 1
+        entry = {"impl": tag, "declared": sorted(f"{a}({p})" for a, p in decl),
+                 "required": sorted(set(f"{a}({p})" for a, p in req)), "z3": verdict}
+        ev["unsafe_impls"].append(entry)
+        if err:
+            res["inconclusive"].append(f"C14/TYPE: solver error or z3/cvc5 disagreement on {tag}")
+            continue
+        if verdict == "unsat":
+            res["discharged"] += 1
+            if len(res["samples"]) < 3:
+                res["samples"].append({"obligation": tag, "declared": entry["declared"], "required": entry["required"],
+                                       "verdict": "declared => required (unsat of the negation)"})
+            continue
+        missing = sorted(k for k, v in model.items() if not v and tuple(k.split("_", 1)) in set(req))
+        entry["counterexample"] = {k: v for k, v in model.items()}
+        what = f"unsafe impl {tag} admits a type parameter with {missing} false although its fields require it"
+        # known finding?
+        kfm = None
+        for f in kf.get("findings", []):
+            if f["property"] == prop and f.get("impl") and f["impl"] in tag and all(m in missing for m in f.get("missing", [])):
+                kfm = f
+        if kfm:
+            res["known"].append(f"KNOWN-FINDING: property={prop} {kfm['what']} [{tag}: missing {missing}]")
+            continue
+        # replay: the wrongly admitted client program must be accepted by the compiler to count
+        rdir = os.path.join(REPLAYS, f"{prop}-type-{hashlib.sha1(tag.encode()).hexdigest()[:10]}")
+        os.makedirs(rdir, exist_ok=True)
+        open(os.path.join(rdir, "query.smt2"), "w").write(script)
+        json.dump({"property": prop, "impl": tag, "counterexample": model, "missing": missing, "what": what},
+                  open(os.path.join(rdir, "replay.json"), "w"), indent=1)
+        confirmed = True
+        if im["struct"] == "ConIterOfIter":
+            ok_bad, log_bad = compile_probe("probe_not_send", PROBE_ITER)
+            ok_twin, log_twin = compile_probe("probe_twin", TWIN_ITER)
+            open(os.path.join(rdir, "probe_not_send.rs"), "w").write(PROBE_ITER)
+            open(os.path.join(rdir, "compile.log"), "w").write(f"not-send probe compiles: {ok_bad}\n{log_bad}\n\ntwin compiles: {ok_twin}\n{log_twin}")
+            confirmed = ok_bad and ok_twin
+        if confirmed:
+            res["violations"].append(rdir)
+        else:
+            res["inconclusive"].append(f"C14/TYPE: {what}, but the generated client program is rejected by the compiler")
+    ev["wall_s"] = round(time.time() - t0, 2)
+    return res
+
+
+CHECKS = {"C14": [c14_type]}
